@@ -738,3 +738,87 @@ Proof.
   - reflexivity.
   - apply map_cval_some.
 Qed.
+
+(* ---- literal ==, split into a set, fromPrintf, the static helpers ---- *)
+Lemma ex_eq_lit w v l : Inv w -> pre (abs w) (OEqLit v l) = true -> refines_op w (OEqLit v l).
+Proof.
+  intros I P. cbn [pre] in P. split_pre.
+  apply (fin_same w _ w (RInt (b2z (list_eqb (valof (abs w) v) l)))); auto.
+  cbn [exec]. rewrite (var_bytes_abs _ _ I H). cbn [bind]. rewrite eq_mirror. reflexivity.
+Qed.
+
+Lemma ex_split_set w v seps skip : Inv w -> pre (abs w) (OSplitSet v seps skip) = true -> refines_op w (OSplitSet v seps skip).
+Proof.
+  intros I P. cbn [pre] in P. split_pre.
+  destruct (cstr_abs w v I H) as (w1 & E1 & I1 & A1 & _).
+  apply (fin_same w _ w1 (RList (set_of (s_split seps (valof (abs w) v) skip)))); auto.
+  cbn [exec]. rewrite E1. cbn [bind].
+  rewrite (var_bytes_abs _ _ I1 (has_via _ _ _ A1 H)), A1. cbn [bind].
+  rewrite m_split_spec by lia. reflexivity.
+Qed.
+
+Lemma ex_stat w q v u : Inv w -> pre (abs w) (OStat q v u) = true -> refines_op w (OStat q v u).
+Proof.
+  intros I P. cbn [pre] in P. apply andb_true_iff in P. destruct P as (P & Q). apply andb_true_iff in P. destruct P as (Hv & Hu).
+  apply (fin_same w _ w (RInt (s_stat q (valof (abs w) v) (valof (abs w) u)))); auto.
+  cbn [exec]. rewrite !(var_bytes_abs _ _ I) by assumption. cbn [bind]. rewrite stat_mirror; [reflexivity|].
+  destruct q; auto; split_pre; auto.
+Qed.
+
+Lemma upd_last {A} (l : list A) x y : upd (length l) y (l ++ [x]) = l ++ [y].
+Proof. induction l as [|h t IH]; cbn; auto. rewrite IH. reflexivity. Qed.
+
+(* a variable pushed at the end and then written through: the world is the old one plus that variable *)
+Lemma push_frame_fin w w1 h1 w' h' :
+  vars w1 = vars w ++ [h1] -> regs w1 = regs w -> keeps w w1 ->
+  frame w1 w' (length (vars w)) -> nth_error (vars w') (length (vars w)) = Some h' ->
+  vars w' = vars w ++ [h'] /\ regs w' = regs w /\ keeps w w'.
+Proof.
+  intros EV ER K F Hh. pose proof F as (FL & FR & FF). split; [|split].
+  - rewrite (frame_vars w1 w' _ h' F); [|rewrite EV, app_length; cbn; lia|exact Hh].
+    rewrite EV. apply upd_last.
+  - congruence.
+  - intros x g Hx.
+    assert (Hx1 : nth_error (vars w1) x = Some g) by (rewrite EV, nth_error_app1; auto; eapply nth_error_lt; eauto).
+    assert (Hn : x <> length (vars w)) by (apply nth_error_lt in Hx; lia).
+    destruct (FF x g Hn Hx1) as (_ & C). rewrite C. eapply K; eauto.
+Qed.
+
+Lemma ex_from_printf w l : Inv w -> pre (abs w) (OFromPrintf l) = true -> refines_op w (OFromPrintf l).
+Proof.
+  intros I P. cbn [pre] in P.
+  set (t := length (vars w)).
+  destruct (push_owned_ok w [] 200 I) as (w1 & b & k & E1 & I1 & EV1 & ER1 & K1 & HC1 & O1 & CP1); [cbn; lia|].
+  fold t in O1.
+  destruct (block_ok_in _ _ _ I1 (proj1 (proj2 O1))) as (B1 & B2).
+  assert (FIN : forall w' h', Inv w' -> frame w1 w' t -> nth_error (vars w') t = Some h' -> h_cells w' h' = map Some l ->
+                forall E : exec w (OFromPrintf l) = Ok (w', RNone), refines_op w (OFromPrintf l)).
+  { intros w' h' I' F' Hh HC E.
+    destruct (push_frame_fin w w1 (HBlock b) w' h' EV1 ER1 K1 F' Hh) as (EV & ER & K).
+    apply (fin_push w _ h' (map Some l) w' l RNone); auto. apply map_cval_some. }
+  destruct (length l <? 200) eqn:G.
+  - apply Nat.ltb_lt in G.
+    destruct (v_write_ok w1 t b k 0 (map Some l ++ [Some 0%Z]) I1 O1) as (w2 & k2 & E2 & I2 & F2 & O2 & C2 & L2 & P2);
+      [rewrite app_length, map_length; cbn; lia|].
+    destruct (v_setlen_ok w2 t b k2 (length l) I2 O2) as (w3 & k3 & E3 & I3 & F3 & O3 & C3 & L3 & P3); [lia|].
+    apply (FIN w3 (HBlock b) I3).
+    + eapply frame_trans; eauto.
+    + apply O3.
+    + rewrite (owned_cells _ _ _ _ O3), L3, C3, C2. apply firstn_term_prefix.
+    + cbn [exec]. fold t. rewrite E1. cbn [bind]. replace (length l <? 200) with true by (symmetry; apply Nat.ltb_lt; exact G).
+      rewrite E2. cbn [bind]. unfold ret. rewrite E3. reflexivity.
+  - apply Nat.ltb_ge in G.
+    destruct (v_write_ok w1 t b k 0 (map Some (firstn 199 l) ++ [Some 0%Z]) I1 O1) as (w2 & k2 & E2 & I2 & F2 & O2 & C2 & L2 & P2);
+      [rewrite app_length, map_length, firstn_length; cbn [length]; lia|].
+    destruct (detach_ok w2 t (HBlock b) 0 (length l) I2 (proj1 O2)) as (w3 & b3 & k3 & E3 & I3 & F3 & O3 & L3 & C3 & _); [lia|].
+    destruct (block_ok_in _ _ _ I3 (proj1 (proj2 O3))) as (B3 & B4).
+    destruct (v_write_ok w3 t b3 k3 0 (map Some l ++ [Some 0%Z]) I3 O3) as (w4 & k4 & E4 & I4 & F4 & O4 & C4 & L4 & P4);
+      [rewrite app_length, map_length; cbn; lia|].
+    destruct (v_setlen_ok w4 t b3 k4 (length l) I4 O4) as (w5 & k5 & E5 & I5 & F5 & O5 & C5 & L5 & P5); [lia|].
+    apply (FIN w5 (HBlock b3) I5).
+    + eapply frame_trans; [exact F2|eapply frame_trans; [exact F3|eapply frame_trans; eauto]].
+    + apply O5.
+    + rewrite (owned_cells _ _ _ _ O5), L5, C5, C4. apply firstn_term_prefix.
+    + cbn [exec]. fold t. rewrite E1. cbn [bind]. replace (length l <? 200) with false by (symmetry; apply Nat.ltb_ge; exact G).
+      rewrite E2. cbn [bind]. rewrite E3. cbn [bind]. rewrite E4. cbn [bind]. unfold ret. rewrite E5. reflexivity.
+Qed.
